@@ -395,6 +395,43 @@ impl C17 {
         }
         v
     }
+    /// E6: three levels whose outermost level is a list of two queries, one of them spelled exactly
+    /// like the middle or the innermost query (which enclosing rules a merged rule may leave is decided
+    /// by comparing query texts; a list that shares only ONE query with the merged rule must be kept).
+    fn shared_query_triples(&self) -> Vec<Case> {
+        // outer = [x, s], middle = [y, w], inner = [z] with s = y or s = z: the outer list shares ONE
+        // query text with the levels below it, and the middle list has an alternative (w) that the
+        // outer list does not cover - so leaving the outer rule changes the meaning
+        let a = alphabet(1, false);
+        let few: Vec<MQuery> = a.iter().step_by(3).cloned().collect();
+        let mut v = vec![];
+        let mut i = 0usize;
+        for x in &a {
+            for y in &a {
+                for w in &few {
+                    for z in &few {
+                        for share in 0..2 {
+                            let shared = if share == 0 { y.clone() } else { z.clone() };
+                            if same_query(x, &shared) || same_query(y, w) {
+                                continue;
+                            }
+                            let outer = if i % 2 == 0 { vec![x.clone(), shared] } else { vec![shared, x.clone()] };
+                            let middle = if i / 2 % 2 == 0 { vec![y.clone(), w.clone()] } else { vec![w.clone(), y.clone()] };
+                            v.push(Case {
+                                class: "E6-list2-outer-sharing-a-query-triples".into(),
+                                levels: vec![lvl(outer), lvl(middle), lvl(vec![z.clone()])],
+                                rule_pos: 3,
+                                style: Style::Expanded,
+                                quoted: true,
+                            });
+                            i += 1;
+                        }
+                    }
+                }
+            }
+        }
+        v
+    }
     fn list_pairs(&self, both: bool) -> Vec<Case> {
         let a = alphabet(1, false);
         let mut lists: Vec<Vec<MQuery>> = vec![];
@@ -602,7 +639,7 @@ impl Prop for C17 {
         "C17"
     }
     fn rule(&self) -> String {
-        "a case = 2-3 media query lists (1-2 queries each; types {none, all, screen, print} x modifiers {none, not, only} x 0-3 opaque conditions) nested around/inside one style rule (every position of the rule), every level with its own marker declaration, expanded or compressed. Enumerated completely: E1 all ordered single-query pairs over 3 conditions x 3 rule positions (+ once compressed); E2 all single-query triples over 1 condition (thorough: 2 conditions); E3 all (two-query list) x (single query) pairs in both orders over 1 condition (thorough: list x list); E4 single-query pairs x every way of supplying a part (type, modifier+type, condition, condition parts, condition value expression, query, list) through interpolation; E5 single-query pairs over 1 condition with one side's type and modifier in upper / capitalised case. Thorough adds generated pairs/triples of lists over 5 conditions with repeated conditions, case variants and interpolation. Excluded and counted: modifiers on `all`; two negated queries of the same media type at different levels. Every marker is judged under all environments (type in {screen, print, tv} x all truth assignments). Non-trivial = at least one negated query, or two different concrete media types, or a level with two queries; distinct = distinct (source text, style).".into()
+        "a case = 2-3 media query lists (1-2 queries each; types {none, all, screen, print} x modifiers {none, not, only} x 0-3 opaque conditions) nested around/inside one style rule (every position of the rule), every level with its own marker declaration, expanded or compressed. Enumerated completely: E1 all ordered single-query pairs over 3 conditions x 3 rule positions (+ once compressed); E2 all single-query triples over 1 condition (thorough: 2 conditions); E3 all (two-query list) x (single query) pairs in both orders over 1 condition (thorough: list x list); E4 single-query pairs x every way of supplying a part (type, modifier+type, condition, condition parts, condition value expression, query, list) through interpolation; E5 single-query pairs over 1 condition with one side's type and modifier in upper / capitalised case; E6 triples over 1 condition: outer two-query list [x, s], middle two-query list [y, w], inner [z], where s is spelled like y or z (all x, y; every third query for w, z). Thorough adds generated pairs/triples of lists over 5 conditions with repeated conditions, case variants and interpolation. Excluded and counted: modifiers on `all`; two negated queries of the same media type at different levels. Every marker is judged under all environments (type in {screen, print, tv} x all truth assignments). Non-trivial = at least one negated query, or two different concrete media types, or a level with two queries; distinct = distinct (source text, style).".into()
     }
     fn assumptions(&self) -> Vec<String> {
         vec![
@@ -652,6 +689,7 @@ impl Prop for C17 {
         v.extend(self.list_pairs(false));
         v.extend(self.interpolated_pairs());
         v.extend(self.case_variant_pairs());
+        v.extend(self.shared_query_triples());
         if tier == Tier::Thorough {
             v.extend(self.triples(2));
             v.extend(self.list_pairs(true));
@@ -669,6 +707,7 @@ impl Prop for C17 {
                 "E3-list2-x-list2": g("E3-list2-x-list2"),
                 "E4-interpolated-pairs": g("E4-interpolated-pairs"),
                 "E5-case-variant-pairs": g("E5-case-variant-pairs"),
+                "E6-list2-outer-sharing-a-query-triples": g("E6-list2-outer-sharing-a-query-triples"),
             },
             "markers_judged": g("marker-judged"),
         })
